@@ -24,3 +24,11 @@ package net
 //@   callpre (net.Conn).Write @writes-the-callers-buffer arg1 == b
 //@   modifies rawwriten, rawwriteerr, statval, atomu64
 //@   ensures @returns-what-the-socket-returned-unless-arming-the-deadline-failed (result0 == rawwriten && result1 == rawwriteerr) || (result0 == 0 && result1 != nil && rawwriten == old(rawwriten))
+
+//@ func (*connCounter).incBytesIn
+//@   prop C05 C20
+//@   modifies atomu64
+
+//@ func (*connCounter).incBytesOut
+//@   prop C05 C20
+//@   modifies atomu64
